@@ -118,8 +118,9 @@ for seed in range(payload["seeds"]):
                     want = (it[0], b"%d" % it[2]) if it else ("D", "C")
                     if it: known_cas[k] = got[1] if isinstance(got, tuple) else b"0"
                 elif op == "gat":
-                    it = alive(k); got = c.gat(k, 7, "D"); want = it[0] if it else "D"
-                    if it: it[1] = srv.now + 7
+                    gexp = rnd.choice([7, 0, 0, 2])           # exptime 0 = never expires (it CLEARS a pending expiry)
+                    it = alive(k); got = c.gat(k, gexp, "D"); want = it[0] if it else "D"
+                    if it: it[1] = (srv.now + gexp) if gexp else None
                 elif op == "delete":
                     it = alive(k); got = c.delete(k, noreply=nr); want = True if eff else it is not None
                     model.pop(k, None)
